@@ -214,6 +214,14 @@ C04ObjLeafs ==
                                          <<"b", ObjectS("B", <<Prop("b", StringS(None, None, None), FALSE)>>, "map", FALSE)>> >>),
       OneOfS("int", "type", TRUE, << <<1, ObjectS("A", <<Prop("a", IntS(Some(1), Some(2), None), TRUE), Prop("type", IntS(None, None, None), TRUE)>>, "map", FALSE)>> >>),
       OneOfS("string", "type", FALSE, << <<"a", ObjectS("A", <<Prop("a", IntS(Some(1), Some(2), None), TRUE)>>, "sub", FALSE)>> >>),
+      \* objects mapped to a POINTER type, and a one-of over such a member: the typed nil pointer of exactly that
+      \* type (junk classes nil_wide / nil_sub) reaches them at the root, as list item, map value and one-of value
+      ObjectS("O", << Prop("a", IntS(Some(1), Some(2), None), TRUE), Prop("x", AnyS, FALSE) >>, "wide_p", FALSE),
+      ObjectS("O", << Prop("a", IntS(Some(1), Some(2), None), TRUE) >>, "sub_p", TRUE),
+      ObjectS("O", << Prop("a", IntS(Some(1), Some(2), None), TRUE) >>, "sub", FALSE),
+      ObjectS("O", << Prop("a", IntS(Some(1), Some(2), None), TRUE), Prop("sp", ObjectS("S", <<Prop("a", IntS(None, None, None), TRUE)>>, "sub_p", FALSE), FALSE) >>, "wide", FALSE),
+      OneOfS("string", "type", FALSE, << <<"a", ObjectS("A", <<Prop("a", IntS(Some(1), Some(2), None), TRUE)>>, "sub_p", FALSE)>>,
+                                         <<"b", ObjectS("B", <<Prop("a", IntS(Some(1), Some(2), None), TRUE)>>, "wide_p", FALSE)>> >>),
       ScopeS("R", << ObjectS("R", << Prop("a", IntS(Some(1), Some(2), None), TRUE), Prop("n", RefS("R"), FALSE) >>, "map", FALSE) >>) }
 \* single-property self-references (the inline-shorthand loop): a small value set, at the root and nested
 C04LoopLeafs ==
@@ -262,8 +270,11 @@ C04Values ==
            Struct("wide", << <<"l", Some(L("typed", <<>>))>>, <<"m", Some(M("typed", <<>>))>>, <<"b", Some(Str("#empty"))>> >>),
            Struct("wide", << <<"l", Some(L("typed", <<I64(1)>>))>>, <<"m", Some(M("typed", << <<Str("a"), I64(1)>> >>))>>, <<"b", Some(Str("a"))>> >>),
            Struct("ptrs", << <<"a", Some(I64(1))>>, <<"x", None>> >>), Struct("ptrs", << <<"a", None>>, <<"x", Some(L("any", <<Nil>>))>> >>),
-           Struct("sub", << <<"a", Some(I64(1))>> >>), Struct("sub_p", << <<"a", Some(I64(1))>> >>), Struct("notag", << <<"A", Some(I64(1))>> >>) }
-Hashable(x) == x.k \in {"nil", "bool", "int", "float", "fspecial", "str", "re", "struct"} \/ (x.k = "junk" /\ x.v \in {"time", "struct", "ptr", "nilptr", "nilre", "chan"})
+           Struct("sub", << <<"a", Some(I64(1))>> >>), Struct("sub_p", << <<"a", Some(I64(1))>> >>), Struct("notag", << <<"A", Some(I64(1))>> >>),
+           Struct("wide_p", << <<"a", Some(I64(1))>>, <<"x", None>> >>), Struct("wide_p", << <<"a", Some(I64(3))>>, <<"x", Some(Str("a"))>> >>),
+           Struct("wide", << <<"a", Some(I64(1))>>, <<"sp", None>> >>),
+           Struct("wide", << <<"a", Some(I64(1))>>, <<"sp", Some(Struct("sub_p", << <<"a", Some(I64(1))>> >>))>> >>) }
+Hashable(x) == x.k \in {"nil", "bool", "int", "float", "fspecial", "str", "re", "struct"} \/ (x.k = "junk" /\ x.v \in {"time", "struct", "ptr", "nilptr", "nilre", "chan", "nil_wide", "nil_sub"})
 StrKey == StringS(None, None, None)
 \* one level of context around (leaf, x)
 Wrap1(leaf, x) ==
